@@ -42,22 +42,18 @@ fn id_is_path(id: u8) -> bool {
     id == 1 || id == 2
 }
 fn id_of_output(n: &Option<OsString>) -> u8 {
+    // the candidate names differ in (length, second byte): no byte-wise comparison loops
     match n {
         None => 0,
         Some(s) => {
             let b = s.as_encoded_bytes();
-            if b == b"/a" {
-                1
-            } else if b == b"/b" {
-                2
-            } else if b == b"[heap]" {
-                3
-            } else if b == b"[vdso]" {
-                4
-            } else if b == LINUX_GATE_LIBRARY_NAME.as_bytes() {
-                5
-            } else {
-                99
+            match (b.len(), if b.len() > 1 { b[1] } else { 0 }) {
+                (2, b'a') => 1,
+                (2, b'b') => 2,
+                (6, b'h') => 3,
+                (6, b'v') => 4,
+                (13, b'i') => 5,
+                _ => 99,
             }
         }
     }
